@@ -21,8 +21,10 @@ def sh(cmd, **kw):
 
 
 def main():
+    wave = os.environ.get('MUT_WAVE', '')      # e.g. MUT_WAVE=2: read /tmp/mut2-cxx, number the changes from 4
+    offset = 3 * (int(wave) - 1) if wave else 0
     for pid in sys.argv[1:]:
-        src = '/tmp/mut-%s' % pid.lower()
+        src = '/tmp/mut%s-%s' % (wave, pid.lower())
         out = os.path.join(src, 'out')
         if not os.path.isdir(out):
             print(pid, 'no out dir')
@@ -58,7 +60,7 @@ def main():
                       t.stdout.strip()[-60:], flush=True)
                 if not ok:
                     continue
-                dst = os.path.join(HERE, 'seeded', '%s-%s' % (pid, k))
+                dst = os.path.join(HERE, 'seeded', '%s-%d' % (pid, int(k) + offset))
                 os.makedirs(dst, exist_ok=True)
                 shutil.copy(os.path.join(d, 'patch.diff'), dst)
                 shutil.copy(os.path.join(d, 'demo.py'), dst)
